@@ -66,6 +66,9 @@ type realm struct {
 
 	closed    bool
 	closeLock sync.Mutex
+	// Sessions whose handlers exited because of realm shutdown. Their peers
+	// are closed by close(), after broker and dealer have stopped.
+	shutdownSessions []*wamp.Session
 
 	log   stdlog.StdLog
 	debug bool
@@ -218,6 +221,14 @@ func (r *realm) close() {
 	r.dealer.close()
 	r.broker.close()
 
+	// Sessions stopped by the shutdown were not removed from broker and
+	// dealer, so messages could still be routed to them until now. Only now
+	// that nothing can send to these sessions is it safe to close their peers.
+	for _, sess := range r.shutdownSessions {
+		sess.Close()
+	}
+	r.shutdownSessions = nil
+
 	// Finally close realm's action channel.
 	close(r.actionChan)
 	<-r.stopped
@@ -347,6 +358,8 @@ func (r *realm) onLeave(sess *wamp.Session, shutdown, killAll bool) {
 		if !shutdown {
 			r.dealer.removeSession(sess)
 			r.broker.removeSession(sess)
+		} else {
+			r.shutdownSessions = append(r.shutdownSessions, sess)
 		}
 		close(sync)
 	}
@@ -418,7 +431,11 @@ func (r *realm) handleSession(sess *wamp.Session) error {
 			}
 		}
 		r.onLeave(sess, shutdown, killAll)
-		sess.Close()
+		if !shutdown {
+			// A session stopped by realm shutdown is still known to broker
+			// and dealer, so its peer is closed later by realm.close().
+			sess.Close()
+		}
 		r.waitHandlers.Done()
 	}()
 
